@@ -12,25 +12,25 @@ import (
 
 func init() {
 	register(&Property{
-		ID:        "C04",
-		Roots:     []string{"overlord/state", "overlord"},
-		Technique: "dirty-bit discipline as an interprocedural must-precede analysis (every store to a field that MarshalJSON persists is preceded by State.writing() in the function or at every call site of the helper), guarded-sink on State.Unlock, ordering in the task completion closure, who-may-clear of the modified flag",
+		ID:          "C04",
+		Roots:       []string{"overlord/state", "overlord"},
+		Technique:   "dirty-bit discipline as an interprocedural must-precede analysis (every store to a field that MarshalJSON persists is preceded by State.writing() in the function or at every call site of the helper), guarded-sink on State.Unlock, ordering in the task completion closure, who-may-clear of the modified flag",
 		Explanation: "Structural necessary conditions for 'a restart resumes without redoing finished work': (R1) the persisted fields are derived from the five MarshalJSON writers (C05); every mutation of one of them in package overlord/state (field store, map insert/delete, element store, customData.set) is preceded on every path by State.writing() in the same function or, for unexported helpers, at every call site (recursively), with a short reasoned exception table; (R2) State.Unlock clears `modified` only across backend.Checkpoint(data)==nil with data serialised before, and nothing else clears it; (R3) in the task completion closure the handler call precedes taking the state lock and every status store lies after Lock (the deferred Unlock checkpoints it); (R4) Ensure lets Doing/Undoing tasks without a tomb reach run (they are run again after a restart) while Ready tasks never do (C02-R2); (R6) while the runner is stopping, a plain handler error of a do or undo handler never reaches SetStatus(Error)/abortLanes (it is turned into a Retry, so the interrupted work is resumed after the restart); (R5) the overlord wires the atomic-write backend into the state it loads.",
-		NotDecided: "idempotence of the handlers that are re-run; equality of outcomes with and without the restart.",
-		Run:        runC04,
+		NotDecided:  "idempotence of the handlers that are re-run; equality of outcomes with and without the restart.",
+		Run:         runC04,
 	})
 }
 
 // c04Exempt lists functions whose mutations of persisted fields need no writing(), with the reason.
 var c04Exempt = map[string]string{
-	"overlord/state.(*State).UnmarshalJSON":   "reload from disk: the in-memory state becomes the persisted state",
-	"overlord/state.(*Task).UnmarshalJSON":    "reload from disk (calls writing() when attached to a state)",
-	"overlord/state.(*Change).UnmarshalJSON":  "reload from disk (calls writing() when attached to a state)",
-	"overlord/state.(*Notice).UnmarshalJSON":  "reload from disk",
-	"overlord/state.(*Warning).UnmarshalJSON": "reload from disk",
-	"overlord/state.(*State).unflattenWarnings": "reload from disk (called by State.UnmarshalJSON, which calls writing())",
-	"overlord/state.(*State).unflattenNotices":  "reload from disk (called by State.UnmarshalJSON, which calls writing())",
-	"overlord/state.(*Task).SetProgress":       "documented: progress is not worth a checkpoint of its own; only the final status change is persisted",
+	"overlord/state.(*State).UnmarshalJSON":        "reload from disk: the in-memory state becomes the persisted state",
+	"overlord/state.(*Task).UnmarshalJSON":         "reload from disk (calls writing() when attached to a state)",
+	"overlord/state.(*Change).UnmarshalJSON":       "reload from disk (calls writing() when attached to a state)",
+	"overlord/state.(*Notice).UnmarshalJSON":       "reload from disk",
+	"overlord/state.(*Warning).UnmarshalJSON":      "reload from disk",
+	"overlord/state.(*State).unflattenWarnings":    "reload from disk (called by State.UnmarshalJSON, which calls writing())",
+	"overlord/state.(*State).unflattenNotices":     "reload from disk (called by State.UnmarshalJSON, which calls writing())",
+	"overlord/state.(*Task).SetProgress":           "documented: progress is not worth a checkpoint of its own; only the final status change is persisted",
 	"overlord/state.(*Task).accumulateDoingTime":   "statistics only, persisted with the status change that follows in the same locked section",
 	"overlord/state.(*Task).accumulateUndoingTime": "statistics only, persisted with the status change that follows in the same locked section",
 }
@@ -414,6 +414,32 @@ func runC04(c *Ctx) {
 			}
 		}
 		c.Check(ok, "overlord.(*Overlord).loadState#"+n, ls.Pos(), n+" receives the backend given to loadState", n+" is not given loadState's backend: the state would not be checkpointed to the state file")
+	}
+
+	// ---- R7
+	c.Rule("C04-R7", "O", "Overlord.Stop: the state lock file is released only after the state engine (managers, task runner, in-flight handlers and their checkpoints) has stopped; loadState takes the lock before reading the state", 3)
+	ostop := P.Func("overlord.(*Overlord).Stop")
+	engStop := P.FuncObj("overlord.(*StateEngine).Stop")
+	flClose := P.FuncObj("osutil.(*FileLock).Close")
+	closes := CallSites(ostop, flClose)
+	if len(closes) == 0 || len(CallSites(ostop, engStop)) == 0 {
+		c.Undecided("overlord.(*Overlord).Stop#lock-released-last", ostop.Pos(), "expected stateEng.Stop() and stateFLock.Close() in Overlord.Stop")
+	}
+	for i, cl := range closes {
+		c.Before(fmt.Sprintf("overlord.(*Overlord).Stop#lock-released-last#%d", i+1), ostop, SinkCall(engStop), "o.stateEng.Stop()", cl, nil)
+	}
+	// the successor holds the lock before it opens (or creates) the state
+	lockTO := P.FuncObj("overlord.lockWithTimeout")
+	locked := OkCall("lockWithTimeout ok", lockTO)
+	nL := 0
+	for _, obj := range []*types.Func{P.FuncObj("os.Open"), P.FuncObj("overlord/state.New")} {
+		for _, ci := range CallSites(ls, obj) {
+			nL++
+			c.Guarded(fmt.Sprintf("overlord.(*Overlord).loadState#%s<=state-lock-held#%d", obj.Name(), nL), ls, ci, []Clause{{locked}}, nil)
+		}
+	}
+	if nL < 2 {
+		c.Undecided("overlord.(*Overlord).loadState#state-lock-held", ls.Pos(), "expected os.Open(dirs.SnapStateFile) and state.New in loadState")
 	}
 }
 
